@@ -1974,9 +1974,11 @@ class Interp:
                 a = self.view(a)
             if isinstance(b, SV):
                 b = self.view(b)
-            if isinstance(a, SSet) and isinstance(b, SSet):
-                return {ast.Lt: a.items < b.items, ast.LtE: a.items <= b.items, ast.Gt: a.items > b.items,
-                        ast.GtE: a.items >= b.items}[type(op)]
+            if isinstance(a, (SSet, set, frozenset)) and isinstance(b, (SSet, set, frozenset)):
+                # subset / superset tests between concrete sets
+                x = a.items if isinstance(a, SSet) else a
+                y = b.items if isinstance(b, SSet) else b
+                return {ast.Lt: x < y, ast.LtE: x <= y, ast.Gt: x > y, ast.GtE: x >= y}[type(op)]
             if isinstance(a, (int, SInt)) and isinstance(b, (int, SInt)) and not isinstance(a, bool):
                 if isinstance(a, int) and isinstance(b, int):
                     return {ast.Lt: a < b, ast.LtE: a <= b, ast.Gt: a > b, ast.GtE: a >= b}[type(op)]
